@@ -796,3 +796,24 @@ def s_join(ex, st, recv, args, kwargs, cx):
 
 CONTAINER_METHODS[("Pattern", "match")] = p_match
 STR_METHODS[("str", "join")] = s_join
+
+
+def b_partial(ex, st, args, kwargs, cx, node):
+    """functools.partial(ConfigFormat.get, name, **kwargs): the only shape /repo uses"""
+    import ast as _ast
+    if _ast.unparse(node.args[0]) != "ConfigFormat.get" or len(args) != 2:
+        raise Unsupported("functools.partial of %s" % _ast.unparse(node.args[0]))
+    st = st.clone()
+    r = st.new_ref("partial")
+    st.wr("$pf_target", r, ex.w.V.str(z3.StringVal("ConfigFormat.get")))
+    st.wr("$pf_arg0", r, args[1].e)
+    kw = kwargs.get("**")
+    if kw is None:
+        if kwargs:
+            raise Unsupported("partial with explicit keywords")
+        kw = ex.o.dict_new(st)
+    st.wr("$pf_kwargs", r, kw.e)
+    yield st, ex.o.ref(r, "partial")
+
+
+BUILTIN_FUNCS["partial"] = b_partial
